@@ -208,7 +208,15 @@ def check_next(ctx, F, hty, size_off, label, rule_prefix="T"):
             # `match ref_from_slice(..) { Ok(t) => t, Err(e) => panic!(..) }`: the unwrap of T3, written as a match
             f = N(f)
             return f[0] == "cmp" and f[1] in ("Eq", "Ne") and f[2][0] == "discr" and f[2][1][0] == "call" and G.cn(f[2][1][1]).endswith("DynSizedStructure::ref_from_slice")
-        if any(unwrap_spelt_out(f) for f in fs_):
+        def bounds_spelt_out(f):
+            # `let Some(s) = buffer.get(from..to) else { panic!(..) }`: the bounds check of T3's slicing, written as a test
+            f = N(f)
+            return f[0] == "cmp" and f[2][0] == "discr" and f[2][1][0] == "call" and G.cn(f[2][1][1]) == "core::slice::get" and f[2][1][2] and f[2][1][2][0] == buf
+        if any(unwrap_spelt_out(f) or bounds_spelt_out(f) for f in fs_):
+            continue
+        from .. import exact as EX
+        if any(EX.opaque_discr(f) for f in fs_):
+            ctx.note("T4x: a panic edge of next() is reached under the discriminant of a joined value only - not decided")
             continue
         if G.entails(fs_, ("cmp", "Ge", raw_off_, ("len", raw_buf_))) is None and not any(N(f) == ("cmp", "Ge", off, ("len", buf)) or N(f) == ("cmp", "Gt", off, ("len", buf)) for f in fs_):
             bad_x.append("%s under %s" % (s_.what, [G.show(f)[:70] for f in fs_][:4]))
